@@ -70,6 +70,10 @@ def drive(base, resume, comm=None):
     if base["transitions"]:
         # the old *samples* (not only the mean) feed the next iteration
         kw["transitions"] = lambda i: (lambda sl: sl.average())
+    if base.get("fresh", "true") == "only0":
+        kw["fresh_stochasticity"] = lambda i: i == 0
+    elif base.get("fresh") == "alt":
+        kw["fresh_stochasticity"] = lambda i: i % 2 == 0
     if base["constants"]:
         kw["constants"] = list(base["constants"])
     if base["point_estimates"]:
@@ -112,7 +116,8 @@ def gen_base(rng, tier):
          "transitions": rng.random() < 0.4,
          "constants": [rng.choice(keys)] if rng.random() < 0.25 else [],
          "point_estimates": [rng.choice(keys)] if rng.random() < 0.25 else [],
-         "bufsize": rng.choice([1, 64, 4096, 8192, None]), "nranks": 1}
+         "bufsize": rng.choice([1, 64, 4096, 8192, None]), "nranks": 1,
+         "fresh": rng.choice(["true", "true", "only0", "alt"])}
     if tier == "thorough" and rng.random() < 0.25:
         b["nranks"] = rng.choice([2, 3])
         b["sched_seed"] = rng.randrange(10**6)
@@ -277,6 +282,8 @@ def bases_for(tier, seed):
         for ns in (0, 2):
             for tr in (False, True):
                 bases.append(dict(SIMPLE, model="nl3", nit=3, strategy=strat, n_samples=ns, transitions=tr))
+    bases.append(dict(SIMPLE, model="nl3", nit=4, n_samples=2, fresh="only0"))
+    bases.append(dict(SIMPLE, model="nl3", nit=4, n_samples=1, fresh="alt", strategy="latest"))
     while len(bases) < n:
         bases.append(gen_base(rng, tier))
     return bases
